@@ -196,6 +196,20 @@ def make_steps(rng, n, slow, reloads=0, excludes=False):
     return steps
 
 
+def matcher_idle(tr):
+    # every announced request has been taken, the request taken last has been answered (or abandoned for a newer
+    # one that was answered) and the answer has reached the terminal - a slow scan is silent, not idle
+    last = {}
+    for e in tr:
+        if e["ev"] in ("match.reset", "match.pick", "match.publish", "term.list"):
+            last[e["ev"]] = e["seq"]
+    if "match.reset" not in last:
+        return True
+    return last.get("match.pick", -1) > last["match.reset"] and last.get("match.publish", -1) > last["match.pick"] and \
+        last.get("term.list", -1) > last["match.publish"]
+
+
+
 def run_session(ctx, fzf, sid, lines, sched, steps, extra_args=(), width=70, height=16, race_log=False, reload_scheds=(), chunk_ms=0):
     """reload_scheds: schedules for the reload commands RELOAD<k>; returns (trace, GET state, {command: k})."""
     sdir = os.path.join(ctx.work, "pl-%d-%d" % (os.getpid(), sid))
@@ -221,12 +235,13 @@ def run_session(ctx, fzf, sid, lines, sched, steps, extra_args=(), width=70, hei
         for st in steps:
             if st.get("check"):
                 # mid-session quiescence: nothing moves any more (the spinner aside), then the state is read
+                s.wait_for(matcher_idle, timeout=120, what="matcher idle (mid-session check)")
                 s.wait_trace_quiet(quiet=0.4, timeout=60, ignore=("term.render",))
                 g = s.get()
                 n1 = sum(1 for e in s.trace() if e["ev"] != "term.render")
                 s.wait_trace_quiet(quiet=0.1, timeout=60, ignore=("term.render",))
                 tr_now = s.trace()
-                if g is not None and not g["reading"] and sum(1 for e in tr_now if e["ev"] != "term.render") == n1:
+                if g is not None and not g["reading"] and matcher_idle(tr_now) and sum(1 for e in tr_now if e["ev"] != "term.render") == n1:
                     mids.append((tr_now[-1]["seq"] if tr_now else 0, g))
                 continue
             if st["sleep"] > 0:
@@ -279,8 +294,9 @@ def run_session(ctx, fzf, sid, lines, sched, steps, extra_args=(), width=70, hei
             n1 = sum(1 for e in s.trace() if e["ev"] != "term.render")
             s.wait_trace_quiet(quiet=0.1, timeout=60, ignore=("term.render",))
             tr_now = s.trace()
-            if (not st["reading"] or (loader_idle(tr_now) and time.time() - t0 > 3)) and sum(1 for e in tr_now if e["ev"] != "term.render") == n1:
-                break           # the (re)loader is done and nothing moved since the state was read
+            if (not st["reading"] or (loader_idle(tr_now) and time.time() - t0 > 3)) and matcher_idle(tr_now) and \
+                    sum(1 for e in tr_now if e["ev"] != "term.render") == n1:
+                break           # the (re)loader is done, the matcher has answered and nothing moved since the state was read
             if time.time() - t0 > 120:
                 raise Infra("session never became quiescent (reading=%s)" % st["reading"])
         tr = list(s.trace())
@@ -327,7 +343,8 @@ def project(trace, get, sid, cmdmap=None, tail=0, sizes=None):
         return {"q": e["q"], "lo": e.get("first", 0), "count": e["count"], "final": e["final"], "sort": e["sort"], "rev": e["rev"]}
     saw = []
     last_cfg = 0
-    issued = []             # (fields, cfg) of announced requests, oldest first
+    issued = []             # (fields, cfg, seq) of announced requests, oldest first
+    last_bump_seq = -1
     scanning_cfg = None     # configuration of the request the matcher is serving right now
     overlap_cfg = None      # configuration that was being scanned when the caches were last cleared (it may have refilled them)
     def quiescent_event(name, g):
@@ -357,6 +374,10 @@ def project(trace, get, sid, cmdmap=None, tail=0, sizes=None):
             for j in range(len(issued) - 1, -1, -1):
                 if issued[j][0] == f:
                     scanning_cfg = issued[j][1]
+                    if issued[j][2] < last_bump_seq:
+                        # a request announced BEFORE the caches were last cleared is served after the clear: it may put
+                        # entries of its own configuration back (same mechanism as a scan in flight across the clear)
+                        overlap_cfg = issued[j][1]
                     issued = issued[j + 1:]
                     break
         elif k == "coord.restart":
@@ -376,6 +397,7 @@ def project(trace, get, sid, cmdmap=None, tail=0, sizes=None):
                 pending_sync_clear = False
         elif k == "coord.bump":
             overlap_cfg = scanning_cfg
+            last_bump_seq = e["seq"]
             if e.get("compatible", True) and e.get("deny"):
                 prev_denied = list(denied)
                 denied = denied + [i for i in e["deny"] if i not in denied]
@@ -386,7 +408,7 @@ def project(trace, get, sid, cmdmap=None, tail=0, sizes=None):
             c = cfg_index((inp, tuple(denied), nth))
             pc = overlap_cfg if (overlap_cfg is not None and overlap_cfg != c and cfgs[overlap_cfg][0] == inp) else -1
             last_cfg = c
-            issued.append((req(e), c))
+            issued.append((req(e), c, e["seq"]))
             evs.append(dict(req(e), ev="reset", cancel=e["cancel"], cfg=c, pcfg=pc, seq=e["seq"]))
             keys.add((e["q"], e.get("first", 0), e["count"], e["sort"], c))
             if pc >= 0:
